@@ -345,6 +345,26 @@ inline EncResult gen_stream(vf::Ctx& c, ZSTD_CCtx* cctx, const EncOpts& eo) {
             c.note("[abandoned %zu bytes] ", pos);
             res.abandoned++;
         }
+        if (eo.allow_abandon && flavor == F_STABLE_IN && !x.empty() && t.chance(20)) {
+            // stable-input flavour: an abandoned frame made of a few growing e_continue calls over ANOTHER stable buffer
+            // (small ones are only recorded by the library, not compressed yet), then a session reset
+            std::vector<uint8_t> other(x.begin(), x.begin() + std::min<size_t>(x.size(), (size_t)t.range(1, 300000)));
+            size_t pos = 0, size = 0; unsigned ncalls = (unsigned)t.range(1, 4);
+            for (unsigned i = 0; i < ncalls && size < other.size(); i++) {
+                size = std::min(other.size(), size + 1 + gen_chunk(t));
+                vf::Buf ob((size_t)t.range(0, 200000));
+                ZSTD_inBuffer in = {other.data(), size, pos};
+                ZSTD_outBuffer out = {ob.p, ob.n, 0};
+                size_t r = ZSTD_compressStream2(cctx, &out, &in, ZSTD_e_continue);
+                if (ZSTD_isError(r)) break;
+                pos = in.pos;
+            }
+            size_t rr = ZSTD_CCtx_reset(cctx, ZSTD_reset_session_only);
+            VF_CHECK(c, !ZSTD_isError(rr), "session reset of an abandoned stable-input frame failed: %s", ZSTD_getErrorName(rr));
+            c.label("abandoned_frame_stable_input");
+            c.note("[abandoned stableIn %zu bytes] ", pos);
+            res.abandoned++;
+        }
         c.note("frame%u{%s %s %s} ", fi, flavor_name[flavor], ps.str().c_str(), ci.summary().c_str());
         c.label(std::string("enc_flavor:") + flavor_name[flavor]);
         encode_frame(c, cctx, eo, flavor, ps, x, res);
